@@ -89,6 +89,10 @@ def ids_for(style, axis, n):
     if style == 'numeric':
         base = ['1', '2.5', '1e3', 'nan'] if axis == 'observation' else ['7', '0.5', '-3', 'inf']
         return base[:n]
+    if style == 'edgews':
+        # leading / trailing white space is part of an id (not in ID_STYLES: only the formats that can carry it
+        # - HDF5 and JSON - enumerate it)
+        return [p + x for x in ['1 ', '2\u3000', ' 3', '4 \x1f']][:n]
     raise KeyError(style)
 
 
@@ -124,6 +128,8 @@ def md_for(kind, axis, n):
         elif kind == 'mixednum':
             # a numeric category whose first value has the narrowest type
             d = {'score': [7, 6.5, 8.25, -0.75][i % 4], 'flag': [True, 3, 0, 2.5][i % 4]}
+        elif kind == 'textws':       # text whose first / last character is white space (not in MD_KINDS, see 'edgews')
+            d = {'label': ['val ', ' val', 'v\u3000', 'x \x1f'][i % 4], 'taxonomy': ['k__A ', ' p__B%d' % i]}
         elif kind == 'taxonomy_gap':     # a hierarchical list with an empty level (not in MD_KINDS: C01 excludes it)
             d = {'taxonomy': [['k__A', '', 's__C%d' % i], ['k__A', '', '', 'g__G'], ['k__B', 'p__X', '', 's__%d' % i]][i % 3]}
         elif kind == 'collapsed_ids':
